@@ -944,3 +944,141 @@ def annotation_batches(matrix, size=8):
 def batch_program(batch):
     # a record (not an array): the members keep independent types in a statically typed reading
     return ANNOT_PRELUDE + "{\n" + ",\n".join("  c%d = (%s)" % (i, b[0]) for i, b in enumerate(batch)) + "\n}"
+
+
+# ----------------------------------------------------------------------------- type law and error matrix
+# (1) Every type of the sub-grammar, alone and inside every type context, as a source text for the
+#     printer / parser law (print_runtime(T) parses back with FixedTypeParser and is stable).
+# (2) An error matrix: for every type shape, static type errors of every kind that can be triggered
+#     systematically with the shape on the expected and on the inferred side, and run-time blame
+#     errors through contracts of each shape violated at each path, the contract being reached
+#     through every kind of source (annotation, field, let-bound, record-stored, std.contract.apply,
+#     wrapped in an array / dictionary / enum payload / arrow / record type).  Every program ends in
+#     an error, which the pipeline renders (text with and without colour, JSON, label checks).
+
+TYPE_CONTEXTS = [
+    "{S}", "({S}) -> Number", "Number -> ({S})", "Number -> Number -> ({S})", "(Number -> ({S})) -> Number", "(({S}) -> Number) -> Number",
+    "Array ({S})", "{{_ : ({S})}}", "{{_ | ({S})}}", "{{f : ({S})}}", "{{f | ({S})}}", "{{f : Number, g : ({S})}}", "[| 'K ({S}) |]", "[| 'J, 'K ({S}) |]",
+    "forall z. ({S})", "forall z. z -> ({S})", "forall z. ({S}) -> z", "forall r. {{f : ({S}); r}} -> Number", "forall r. [| 'K ({S}); r |] -> Number",
+    "{{f : ({S}); Dyn}}",
+]
+LAW_IDS = [("builtin", "Number"), ("let-contract", "Pos"), ("application", "(App 0)"), ("record-access", "Lib.Sub.Pos")]
+
+
+def type_law_cases():
+    """[(type text, description)]: shapes x contexts x identifier kinds, and contexts composed twice
+    for the shapes with binders and arrows."""
+    out, seen = [], set()
+
+    def add(t, d):
+        if t not in seen:
+            seen.add(t)
+            out.append((t, d))
+    for sname, stmpl, _ in ANNOT_SHAPES:
+        for iname, itext in LAW_IDS:
+            if "{I}" not in stmpl and iname != "builtin":
+                continue
+            s = stmpl.format(I=itext)
+            for c in TYPE_CONTEXTS:
+                add(c.format(S=s), "%s/%s in %s" % (sname, iname, c))
+    deep = [x for x in ANNOT_SHAPES if x[0] in ("arrow", "arrow-ho", "forall-type", "forall-rrows", "forall-erows", "forall-nested", "enum-payload", "record-type", "dict-type")]
+    for sname, stmpl, _ in deep:
+        s = stmpl.format(I="Number")
+        for c1 in TYPE_CONTEXTS:
+            for c2 in TYPE_CONTEXTS:
+                add(c1.format(S=c2.format(S=s)), "%s in %s in %s" % (sname, c2, c1))
+    return out
+
+
+STATIC_ERRORS = [
+    ("arrow-dom", "let f : ({S}) -> Number = (null | ({S}) -> Number) in (f : String -> Number)"),
+    ("arrow-dom-rev", "let f : String -> Number = (null | String -> Number) in (f : ({S}) -> Number)"),
+    ("arrow-codom", "let f : Number -> ({S}) = (null | Number -> ({S})) in (f : Number -> String)"),
+    ("arrow-codom-rev", "let f : Number -> String = (null | Number -> String) in (f : Number -> ({S}))"),
+    ("arrow-codom2", "let f : Number -> Number -> ({S}) = (null | Number -> Number -> ({S})) in (f : Number -> Number -> String)"),
+    ("arrow-ho", "let f : (Number -> ({S})) -> Number = (null | (Number -> ({S})) -> Number) in (f : (Number -> String) -> Number)"),
+    ("arrow-both", "let f : ({S}) -> ({S}) = (null | ({S}) -> ({S})) in (f : Bool -> String)"),
+    ("arrow-arity", "let f : ({S}) -> Number = (null | ({S}) -> Number) in (f : Number)"),
+    ("not-a-function", "(1 : ({S}) -> Number)"),
+    ("plain", "((null | ({S})) : String)"),
+    ("plain-rev", '("s" : ({S}))'),
+    ("row-extra", "let r : {{a : ({S}), b : Number}} = (null | {{a : ({S}), b : Number}}) in (r : {{a : ({S})}})"),
+    ("row-missing", "let r : {{a : ({S})}} = (null | {{a : ({S})}}) in (r : {{a : ({S}), c : String}})"),
+    ("row-mismatch", "let r : {{a : ({S})}} = (null | {{a : ({S})}}) in (r : {{a : String}})"),
+    ("enum-mismatch", "let e : [| 'K ({S}) |] = (null | [| 'K ({S}) |]) in (e : [| 'K String |])"),
+    ("enum-extra", "let e : [| 'K ({S}) |] = (null | [| 'K ({S}) |]) in (e : [| 'J |])"),
+    ("array-elem", "let a : Array ({S}) = (null | Array ({S})) in (a : Array String)"),
+    ("dict-value", "let d : {{_ : ({S})}} = (null | {{_ : ({S})}}) in (d : {{_ : String}})"),
+    ("forall-constant", "((fun u => (u : ({S}))) : forall q. q -> ({S}))"),
+    ("apply-mismatch", "let f : ({S}) -> Number = (null | ({S}) -> Number) in (f \"s\" : Number)"),
+    ("record-dict", "let r : {{a : ({S}), b : String}} = (null | {{a : ({S}), b : String}}) in (r : {{_ : ({S})}})"),
+]
+
+BLAME_CASES = {
+    "ident": [('"s"', "x")],
+    "array": [('[1, "s"]', "x"), ('"s"', "x")],
+    "array2": [('[[1, "s"]]', "x"), ('[1]', "x")],
+    "arrow": [('(fun v => "s")', "x 1"), ('(fun v => v)', 'x "s"'), ("1", "x")],
+    "arrow-ho": [('(fun g => g "s")', "x (fun v => v)"), ("(fun g => g 1)", 'x (fun v => "s")'), ('(fun g => "s")', "x (fun v => v)")],
+    "forall-type": [("(fun u v => v)", "x 1 1"), ("(fun u v => u)", 'x 1 "s"'), ("(fun u v => u + 1)", "x 1 1")],
+    "forall-rrows": [('(fun u => "s")', "x {x = 1, y = 2}"), ("(fun u => u.x)", 'x {x = "s"}'), ("(fun u => u.y)", "x {x = 1, y = 2}")],
+    "forall-erows": [('(fun u => "s")', "x ('A 1)"), ("(fun u => 0)", "x ('A \"s\")")],
+    "forall-nested": [("(fun g u => g 1)", "x (fun b => 1) 1"), ('(fun g u => u)', 'x (fun b => "s") 1')],
+    "enum-payload": [("('Tcp \"s\")", "x"), ("'Other", "x"), ("('Unix 1)", "x"), ("1", "x")],
+    "enum-payload-deep": [("('Some [\"s\"])", "x"), ("('Some 1)", "x")],
+    "enum-payload-record": [("('R {p = \"s\"})", "x"), ("('R {})", "x")],
+    "enum-tags": [("'c", "x"), ("1", "x")],
+    "record-type": [('{x = "s"}', "x"), ("{}", "x"), ("{x = 1, y = 2}", "x")],
+    "record-type-2": [("{x = 1, y = 'K \"s\"}", "x"), ('{x = "s", y = \'K 1}', "x"), ("{x = 1, y = 'J}", "x")],
+    "record-contract": [('{x = "s"}', "x.x"), ("{}", "x"), ("{x = 1, y = 2}", "x")],
+    "record-contract-open": [('{x = "s", z = 0}', "x.x")],
+    "record-contract-meta": [('{x = "s"}', "x.x"), ('{y = "s"}', "x.y")],
+    "dict-type": [('{k = "s"}', "x"), ("1", "x")],
+    "dict-contract": [('{k = "s"}', "x.k"), ("[]", "x")],
+    "dict-of-enum": [("{k = 'T \"s\"}", "x"), ("{k = 'U}", "x")],
+    "array-of-enum": [("['T \"s\"]", "x"), ("['T 1, 'U]", "x")],
+    "arrow-to-enum": [("(fun n => 'T \"s\")", "x 1"), ("(fun n => 'U)", "x 1"), ("(fun n => 'T n)", 'x "s"')],
+}
+
+# how the contract reaches the value: template with {T} type, {B} bad value, {U} the use of x
+BLAME_SOURCES = [
+    ("inline", "let x = ({B} | {T}) in {U}"),
+    ("let-annot", "let x | {T} = {B} in {U}"),
+    ("field", "let x = {{ f | {T} = {B} }}.f in {U}"),
+    ("field-nodef", "let x = ({{ f | {T} }} & {{ f = {B} }}).f in {U}"),
+    ("let-bound-type", "let C = {T} in let x = ({B} | C) in {U}"),
+    ("record-stored-type", "let L = {{ C = {T} }} in let x = ({B} | L.C) in {U}"),
+    ("function-made-type", "let mk = fun u => {T} in let x = ({B} | mk null) in {U}"),
+    ("contract-apply", "let x = std.contract.apply ({T}) {B} in {U}"),
+    ("in-array", "let x = std.array.at 0 ([{B}] | Array ({T})) in {U}"),
+    ("in-dict", "let x = ({{ k = {B} }} | {{_ : ({T})}}).k in {U}"),
+    ("in-enum", "let x = (('W {B}) | [| 'W ({T}) |]) |> match {{ 'W v => v }} in {U}"),
+    ("in-codomain", "let x = ((fun u => {B}) | Number -> ({T})) 0 in {U}"),
+    ("in-domain", "((fun x => {U}) | ({T}) -> Dyn) {B}"),
+    ("in-record-type", "let x = ({{ g = {B} }} | {{ g : ({T}) }}).g in {U}"),
+    ("pattern", "let {{ f | {T} }} = {{ f = {B} }} in let x = f in {U}"),
+    ("static-then-dynamic", "let x : {T} = (({B} | Dyn) | {T}) in {U}"),
+]
+ERR_IDS = [("builtin", "Number"), ("let-contract", "Pos"), ("application", "(App 0)")]
+
+
+def error_matrix():
+    """[(program body, family, form, shape, identifier kind)]"""
+    out = []
+    for sname, stmpl, _ in ANNOT_SHAPES:
+        for iname, itext in ERR_IDS[:2]:
+            if "{I}" not in stmpl and iname != "builtin":
+                continue
+            s = stmpl.format(I=itext)
+            for ename, etmpl in STATIC_ERRORS:
+                out.append((etmpl.format(S=s), "static", ename, sname, iname))
+        for iname, itext in ERR_IDS[:2]:
+            if "{I}" not in stmpl and iname != "builtin":
+                continue
+            t = stmpl.format(I=itext)
+            for bad, use in BLAME_CASES.get(sname, []):
+                for k, (bname, btmpl) in enumerate(BLAME_SOURCES):
+                    if k >= 8 and iname != "builtin":
+                        continue          # the wrapping sources: one identifier kind is enough
+                    out.append((btmpl.format(T=t, B=bad, U=use), "blame", bname, sname, iname))
+    return out
